@@ -625,3 +625,44 @@ def ilu_empty_column_rule(chk, cid, prog, p, cfgname):
                     'pivot, the empty column joins that supernode, which then has fewer rows than columns, and the fill position that replaces the zero pivot '
                     'does not exist (perm_r keeps a -1)' % '; '.join(pretty(x.c[0])[:40] for x in starts), cfgname=cfgname)
     return 1
+
+
+def fixup_unconditional_rule(chk, cid, prog, cfgname):
+    """fixupL turns the row subscripts of L from rows of A into rows of Pr*A (`lsub[..] = perm_r[lsub[..]]`) for every supernode; callers
+    (?gstrs, the structure checks of the drivers, Destroy/Print) read L in that numbering.  The relabelling has to happen for every matrix
+    that has a column: an early return may only be taken when there is none (`n < 1`).  `n <= 1` (one column) or `nsuper <= 0` (one
+    supernode - a dense block, a 1-column L) skip it and leave L in the wrong numbering whenever perm_r is not the identity."""
+    from ..facts import strip, const_value, loc
+    from ..ir import pretty
+    from ..run import AnalysisBroken
+    f = prog.func('fixupL')
+    if f is None:
+        raise AnalysisBroken('fixupL not found')
+    chk.saw(unit=f.unit, func=f.unit + ':' + f.name)
+    nid = {nm: i for (nm, i, t) in f.params}.get('n')
+    relabel = [x for x in f.body.walk() if x.k == 'Assign' and strip(x.c[0]).k == 'Index' and any(y.k == 'Index' and strip(y.c[0]).k == 'Ref'
+               and strip(y.c[0]).a.get('name') == 'perm_r' for y in x.c[1].walk())]
+    if not relabel or nid is None:
+        raise AnalysisBroken('fixupL: relabelling statement / parameter n not found')
+
+    def empty_only(c):
+        c = strip(c)
+        if c.k == 'Binary' and c.a['op'] == '||':
+            return empty_only(c.c[0]) and empty_only(c.c[1])
+        if c.k == 'Binary' and strip(c.c[0]).k == 'Ref' and strip(c.c[0]).a.get('id') == nid:
+            v = const_value(c.c[1])
+            return (c.a['op'] == '<' and v is not None and v <= 1) or (c.a['op'] == '<=' and v is not None and v <= 0) or (c.a['op'] == '==' and v == 0)
+        return False
+    early = []
+    for x in f.body.walk():
+        if x.k == 'If' and any(y.k == 'Return' for y in x.c[1].walk()) and x.line < relabel[0].line:
+            early.append(x)
+    bad = [x for x in early if not empty_only(x.c[0])]
+    inst = 'fixupL:relabelling-is-unconditional-for-a-non-empty-matrix'
+    if not bad:
+        chk.ok(cid, inst, sample='%d early return(s), each only for n < 1' % len(early))
+    else:
+        chk.violate(cid, inst, loc(f, bad[0]), 'fixupL',
+                    'the early return under `%s` can be taken for a matrix that has columns: L then keeps row subscripts in the numbering of A instead of '
+                    'Pr*A (wrong whenever perm_r is not the identity)' % pretty(bad[0].c[0])[:50], cfgname=cfgname)
+    return 1
